@@ -128,7 +128,7 @@ class Ctx:
         # change-aware effort: when the code under taskiq/ is not the code the models were last validated against,
         # the quick tier explores BOOST times as many cases (never an alarm by itself)
         self.changed = changed_sources()
-        self.boost = int(os.environ.get("VERIF_BOOST", "3")) if self.changed else 1
+        self.boost = int(os.environ.get("VERIF_BOOST", "2")) if self.changed else 1
         self.in_search = False
         self.rng = random.Random("%s/%d" % (pid, seed))
         self.dir = os.path.join(BUILD, pid if REPO == "/repo" else "%s-%s" % (pid, chash_s(REPO)))
